@@ -1,4 +1,6 @@
 import MD.Proofs.TableLemmas
+import Mathlib.Algebra.Order.Field.Rat
+import Mathlib.Tactic.NormNum.Basic
 
 /-! # C13 — `bin_feature(feature, feature_type, n_bins, bin_method)`
 
@@ -374,4 +376,120 @@ theorem C13_str_at_most_n_bins (enumOrder : Option (List String)) (nBins : Nat)
     (2 ≤ nBins → (binString enumOrder nBins feature).nBins ≤ nBins) :=
   ⟨tbl_sbins_distinct_le enumOrder nBins feature, fun h2 => tbl_sNBins_le enumOrder nBins h2 feature⟩
 
+/-! ## examples: the hypotheses are satisfiable on concrete inputs
+
+`#eval` at `K = Rat` (cf. the differential test):
+* `(binNumeric .quantile 3 [] [.fin 1, .fin 2, .null, .fin 5, .fin 2, .posInf]).bins`
+    `= [some 0, some 0, none, some 1, some 0, some 1]`, `nBins = 3`
+* `(binNumeric .uniform 4 [] [.fin 1, .fin 2, .null, .fin 5, .fin 2, .negInf]).bins`
+    `= [some 0, some 0, none, some 2, some 0, some 0]`
+* `binString none 2 [some "a", some "a", some "b", some "other 2"]`
+    `= { nBins := 2, bins := [some "a", some "a", some "_other 2", some "_other 2"], pooled := some "_other 2" }`
+* `binString (some ["c", "b", "a", "other 2"]) 2 [some "a", some "b", some "a", some "c"]`
+    `= { nBins := 2, bins := [some "a", some "_other 2", some "a", some "_other 2"], pooled := some "_other 2" }` -/
+
+/-- `C13_monotone` on a column with a null in between -/
+example : ∃ i i', (binNumeric .quantile 3 [] [Cell.fin (1 : ℚ), .null, .fin 3]).bins[0]? = some (some i) ∧
+    (binNumeric .quantile 3 [] [Cell.fin (1 : ℚ), .null, .fin 3]).bins[2]? = some (some i') ∧ i ≤ i' :=
+  C13_monotone .quantile 3 [] [Cell.fin (1 : ℚ), .null, .fin 3] 0 2 (.fin 1) (.fin 3) rfl rfl rfl rfl
+    (by simp [Cell.le, Cell.lt])
+
+/-- `C13_null_bin` -/
+example : (binNumeric .uniform 3 [] [Cell.fin (1 : ℚ), .null, .fin 3]).bins[1]? = some none :=
+  ((C13_null_bin .uniform 3 [] [Cell.fin (1 : ℚ), .null, .fin 3] 1 .null rfl).1).2 rfl
+
+/-- `C13_edges_contain_binNumeric` with supplied (`numpy`) edges: they have to be sorted -/
+example : ([1, 2] : List ℚ).Pairwise (· ≤ ·) := by simp
+
+example : ∃ i l u, (binNumeric .numpy 5 [1, 2] [Cell.fin (3 / 2 : ℚ), .null, .posInf]).bins[0]? = some (some i) ∧
+    (binNumeric .numpy 5 [1, 2] [Cell.fin (3 / 2 : ℚ), .null, .posInf]).edges[0]? = some (some (l, u)) ∧
+    Cell.le (.fin (3 / 2)) u = true ∧ (0 < i → Cell.lt l (.fin (3 / 2)) = true) := by
+  obtain ⟨i, l, u, h1, h2, _, _, h5, _, h7⟩ :=
+    C13_edges_contain_binNumeric .numpy 5 [1, 2] [Cell.fin (3 / 2 : ℚ), .null, .posInf]
+      (fun _ => by simp) 0 (.fin (3 / 2)) rfl rfl
+  exact ⟨i, l, u, h1, h2, h5, h7⟩
+
+/-- `C13_uniform_edges_sorted`: two different finite values -/
+example : (tbl_inner .uniform 4 [] [Cell.fin (1 : ℚ), .negInf, .fin 3]).Pairwise
+    (fun a b => Cell.lt a b = true) :=
+  C13_uniform_edges_sorted 4 [] [Cell.fin (1 : ℚ), .negInf, .fin 3] 1 3 (by simp) (by simp) (by norm_num)
+
+/-- `C13_at_most_n_bins` -/
+example : (binNumeric .quantile 3 [] [Cell.fin (1 : ℚ), .null, .fin 3, .fin 7, .fin 9]).nBins ≤ 3 :=
+  (C13_at_most_n_bins .quantile (Or.inl rfl) 3 (by norm_num) [] _).2.2
+
+/-- `C13_numpy_n_bins`: a column with a non-null cell -/
+example : ∃ c ∈ [Cell.fin (1 : ℚ), .null], c.isNull = false := ⟨.fin 1, by simp, rfl⟩
+
+/-- `C13_all_null` -/
+example : ∀ c ∈ [(Cell.null : Cell ℚ), .null], c.isNull = true := by simp [Cell.isNull]
+
+/-- `C13_str_kept_or_pooled` / `C13_str_null_bin` on a column with a null -/
+example : (binString none 3 [some "a", some "b", none, some "a", some "c"]).bins[2]? = some none :=
+  (C13_str_null_bin none 3 [some "a", some "b", none, some "a", some "c"] 2 none rfl).2 rfl
+
+/-- `C13_other_count`: three categories, a null, `n_bins = 3`, so `n_bins_ef = 2 < 3` -/
+example : tbl_sNBinsEf 3 [some "a", some "b", none, some "a", some "c"] <
+    (tbl_vc none [some "a", some "b", none, some "a", some "c"]).length := by
+  rw [tbl_vc_length]; decide
+
+/-- `C13_no_pooling`: the categories fit -/
+example : (tbl_vc none [some "a", some "b", none, some "a"]).length ≤
+    tbl_sNBinsEf 3 [some "a", some "b", none, some "a"] := by
+  rw [tbl_vc_length]; decide
+
+/-- `C13_collision_loop_terminates`: the start name collides once -/
+example : binString.fresh ["a", "other 2"] "other 2" 3 ∉ ["a", "other 2"] :=
+  C13_collision_loop_terminates ["a", "other 2"] "other 2" 3 (by decide)
+
+/-- `C13_str_kept_iff` for an Enum column: the values are declared categories -/
+example : ∀ s, some s ∈ [some "a", some "c", none] → s ∈ tbl_existing (some ["a", "b", "c"]) [some "a", some "c", none] := by
+  intro s hs
+  simp at hs
+  rcases hs with rfl | rfl <;> simp [tbl_existing]
+
+/-- `C13_format_small` (tests) -/
+example : formatInteger 2 = "2" := by decide
+example : formatInteger 17 = "17" := by decide
+example : formatInteger 999 = "999" := by rw [C13_format_small 999 (by norm_num)]; rfl
+
 end MD.Props
+
+/-
+`#print axioms` (observed with `lake env lean MD/Props/C13.lean`):
+'MD.Props.C13_cell_order' depends on axioms: [propext, Quot.sound]
+'MD.Props.C13_total' depends on axioms: [propext, Quot.sound]
+'MD.Props.C13_null_bin' depends on axioms: [propext, Quot.sound]
+'MD.Props.C13_null_bin'' depends on axioms: [propext, Quot.sound]
+'MD.Props.C13_digitize_monotone' depends on axioms: [propext, Quot.sound]
+'MD.Props.C13_monotone' depends on axioms: [propext, Quot.sound]
+'MD.Props.C13_equal_share' depends on axioms: [propext, Quot.sound]
+'MD.Props.C13_equal_share_order' depends on axioms: [propext, Quot.sound]
+'MD.Props.C13_edges_contain' depends on axioms: [propext, Classical.choice, Quot.sound]
+'MD.Props.C13_edges_contain_strict' depends on axioms: [propext, Classical.choice, Quot.sound]
+'MD.Props.C13_quantile_edges_sorted' depends on axioms: [propext, Classical.choice, Quot.sound]
+'MD.Props.C13_quantile_edges_sorted'' depends on axioms: [propext, Classical.choice, Quot.sound]
+'MD.Props.C13_uniform_edges_sorted' depends on axioms: [propext, Classical.choice, Quot.sound]
+'MD.Props.C13_uniform_grid_sorted' depends on axioms: [propext, Classical.choice, Quot.sound]
+'MD.Props.C13_edges_sorted' depends on axioms: [propext, Classical.choice, Quot.sound]
+'MD.Props.C13_edges_contain_binNumeric' depends on axioms: [propext, Classical.choice, Quot.sound]
+'MD.Props.C13_at_most_n_bins' depends on axioms: [propext, Classical.choice, Quot.sound]
+'MD.Props.C13_numpy_n_bins' depends on axioms: [propext, Classical.choice, Quot.sound]
+'MD.Props.C13_all_null' depends on axioms: [propext, Classical.choice, Quot.sound]
+'MD.Props.C13_str_total' depends on axioms: [propext, Classical.choice, Quot.sound]
+'MD.Props.C13_str_null_bin' depends on axioms: [propext, Classical.choice, Quot.sound]
+'MD.Props.C13_str_kept_or_pooled' depends on axioms: [propext, Classical.choice, Quot.sound]
+'MD.Props.C13_valuesDeclared_none' depends on axioms: [propext, Classical.choice, Quot.sound]
+'MD.Props.C13_str_kept_iff' depends on axioms: [propext, Classical.choice, Quot.sound]
+'MD.Props.C13_str_equal_share' depends on axioms: [propext, Classical.choice, Quot.sound]
+'MD.Props.C13_collision_loop_terminates' depends on axioms: [propext, Classical.choice, Quot.sound]
+'MD.Props.C13_candidates_distinct' depends on axioms: [propext, Classical.choice, Quot.sound]
+'MD.Props.C13_no_collision' depends on axioms: [propext, Classical.choice, Quot.sound]
+'MD.Props.C13_no_collision_values' depends on axioms: [propext, Classical.choice, Quot.sound]
+'MD.Props.C13_other_count' depends on axioms: [propext, Classical.choice, Quot.sound]
+'MD.Props.C13_no_pooling' depends on axioms: [propext, Classical.choice, Quot.sound]
+'MD.Props.C13_format_small' depends on axioms: [propext, Classical.choice, Quot.sound]
+'MD.Props.C13_top_k' depends on axioms: [propext, Classical.choice, Quot.sound]
+'MD.Props.C13_top_k_counts' depends on axioms: [propext, Classical.choice, Quot.sound]
+'MD.Props.C13_str_at_most_n_bins' depends on axioms: [propext, Classical.choice, Quot.sound]
+-/
